@@ -38,6 +38,9 @@ INPUTS = [
     ["l", ["l", ["l"]]],
     ["l", ["d", [["v", "v"], ["t", ["v", 2.5]]]], ["v", True]],
     ["t", ["l", ["v", b"x"], ["t"]], ["v", None]],
+    # classes among the elements (looked up as type[cls] once a type[...] method exists)
+    ["l", ["c", "int"], ["v", 1], ["l", ["c", "bool"], ["c", "str"]]],
+    ["t", ["c", "bool"], ["l", ["c", "int"]]],
 ]
 
 
@@ -107,7 +110,7 @@ def _gen_method(rng, mid):
     t = {"walk_list": "list", "map_list": "list", "deep_list": "list", "nest_list": "list", "self_list": "list", "walk_tuple": "tuple",
          "wrap": "dict", "ondemand": "list"}.get(kind)
     if t is None:
-        t = rng.choice(["int", "str", "float", "bytes", "bool", "object", "object"])
+        t = rng.choice(["int", "str", "float", "bytes", "bool", "object", "object", "type[int]", "type[object]"])
     ms = {"mid": mid, "t": t, "kind": kind, "prio": 0}
     if kind == "ondemand":
         # the method it registers on the function being called, the first time it runs
